@@ -85,8 +85,8 @@ def cases(draw):
     if op == 'inv_index':
         kind = 'index'
     n = draw(st.integers(0, 4))
-    kvs = draw(st.lists(st.sampled_from(KEYVALS), min_size=n, max_size=n,
-                        unique=True))
+    kvs = draw(st.lists(st.sampled_from(KEYVALS + [key_attr, val_attr or 'v', 'items']),
+                        min_size=n, max_size=n, unique=True))
     weird = None
     if kind == 'seq_of_maps':
         dup = op != 'inv_seq' and n >= 2 and draw(st.integers(0, 5)) == 0
